@@ -386,6 +386,7 @@ func init() {
 			c.BadgerBufferDiscipline("C11")
 			c.RulerKeyAgreement("C14")
 			c.ForkJoinRules("C03")
+			c.DomainRules("C05") // a conflicting duty must not get its partial signatures through the generic endpoint
 			c.StateStoreDiscipline("C14", s, "att")
 			c.StateStoreDiscipline("C14", s, "prop")
 			c.RulerPositions("C14")
